@@ -53,6 +53,7 @@ type State struct {
 	steps    int
 	reached  []string
 	lockDepth int
+	ufApps   []*Term
 }
 
 var stateIDs uint64
@@ -75,6 +76,7 @@ func (st *State) fork() *State {
 	n.pc = append([]*Term(nil), st.pc...)
 	n.nondets = append([]nondetVar(nil), st.nondets...)
 	n.reached = append([]string(nil), st.reached...)
+	n.ufApps = append([]*Term(nil), st.ufApps...)
 	n.binds = make(map[*Term]uint64, len(st.binds))
 	for k, v := range st.binds {
 		n.binds[k] = v
